@@ -63,4 +63,37 @@ theorem mapM_decode_encode (ss : List (List Char)) :
   | nil => rfl
   | cons s ss ih => simp [List.mapM_cons, decodeStr_encodeStr, ih]
 
+
+/-! Raw storage: little-endian bytes. -/
+theorem length_toLE (n w : Nat) : (toLE n w).length = n := by
+  induction n generalizing w with
+  | zero => rfl
+  | succ n ih => simp [toLE, ih]
+
+theorem fromLE_toLE (n w : Nat) : fromLE (toLE n w) = w % 256 ^ n := by
+  induction n generalizing w with
+  | zero => simp [toLE, fromLE, Nat.mod_one]
+  | succ n ih =>
+    simp only [toLE, fromLE, ih]
+    rw [Nat.pow_succ, Nat.mul_comm (256 ^ n) 256, Nat.mod_mul]
+
+theorem decodeRaw_encodeRaw (nb : Nat) (ws : List Nat) (h : ∀ w ∈ ws, w < 256 ^ nb) :
+    decodeRaw nb ws.length (encodeRaw nb ws) = ws := by
+  induction ws with
+  | nil => rfl
+  | cons w ws ih =>
+    have hw := h w (by simp)
+    have ih' := ih (fun x hx => h x (by simp [hx]))
+    simp only [encodeRaw, List.flatMap_cons, List.length_cons, decodeRaw] at ih' ⊢
+    rw [List.take_left' (length_toLE nb w), List.drop_left' (length_toLE nb w), fromLE_toLE,
+      Nat.mod_eq_of_lt hw]
+    exact congrArg _ ih'
+
+theorem length_encodeRaw (nb : Nat) (ws : List Nat) : (encodeRaw nb ws).length = nb * ws.length := by
+  induction ws with
+  | nil => simp [encodeRaw]
+  | cons w ws ih =>
+    simp only [encodeRaw, List.flatMap_cons, List.length_append, length_toLE, List.length_cons] at ih ⊢
+    rw [ih, Nat.mul_succ, Nat.add_comm]
+
 end Tensor
